@@ -1159,12 +1159,12 @@ func main() {
 		ntiny = 6000
 	}
 	var keepTiny [][]ev
-	tinyWarm := 0
+	tinyWarm, tinyCross, tinyCrossTwoRings := 0, 0, 0
 	for i := 0; i < ntiny; i++ {
 		variant := i % 3
 		T := rng.Range(2, 4)
 		scripts, drain := tinyScripts(rng, T)
-		q := newQ(variant, N+32)
+		q := newQ(variant, N+200)
 		warm := 0
 		if (i/3)%3 == 0 { // unrecorded sequential warm-up that leaves the queue empty: the recorded calls straddle a wrap of the ring index (cycle change)
 			warm = N - rng.Range(0, 5)
@@ -1180,6 +1180,41 @@ func main() {
 			tinyWarm++
 		}
 		clock = 0
+		// Segment crossing on the dequeue side: an unrecorded SEQUENTIAL prefix (its results are checked here) fills the first ring,
+		// closes it, puts cj values into the second ring and dequeues all but ck values of the first ring. What is left, in FIFO
+		// order, enters the history as sequential enqueue events stamped before the concurrent part (they did happen before it,
+		// in that order; the dropped prefix is a complete sequential run whose net effect on a FIFO queue is nil), so that
+		// "linearizable from the empty queue" of the emitted history is "linearizable from the left-over contents" of the
+		// recorded part (Common/Hist.v lin_segments). The recorded dequeuers drain the closed ring and advance the queue head
+		// to the second ring while the recorded enqueuers append to it.
+		var pre []ev
+		cross := (i/3)%3 == 1
+		if cross {
+			cj, ck := rng.Range(1, 3), rng.Range(0, 3)
+			okPrefix := true
+			for v := 1; v <= N+cj; v++ {
+				q.Enq(int64(100 + v))
+			}
+			for v := 1; v <= N-ck; v++ {
+				if d, ok := q.Deq(); !ok || d != int64(100+v) {
+					w.Violation("concurrent/"+q.Name()+"/tiny(lin_check)/prefix", "sequential prefix: Dequeue returned a wrong value or empty",
+						map[string]interface{}{"at": v, "got": d, "ok": ok, "want": 100 + v})
+					okPrefix = false
+					break
+				}
+			}
+			if !okPrefix {
+				continue
+			}
+			for v := N - ck + 1; v <= N+cj; v++ {
+				clock += 2
+				pre = append(pre, ev{clock - 1, clock, 0, 0, int64(100 + v)})
+			}
+			tinyCross++
+			if q.Snap().Segments >= 2 {
+				tinyCrossTwoRings++
+			}
+		}
 		pert := ""
 		if i%2 == 1 {
 			lscq.VerifYieldHook = perturbHook
@@ -1189,17 +1224,23 @@ func main() {
 		h := runScripts(q, scripts, 0, drain, &clock)
 		spinStart = false
 		lscq.VerifYieldHook = nil
+		h = append(pre, h...)
 		label := fmt.Sprintf("concurrent/%s/tiny(lin_check)/T=%d%s", q.Name(), T, pert)
 		if warm > 0 {
 			label += "+cycle-wrap"
 		}
+		if cross {
+			label += "+segment-crossing"
+		}
 		light = append(light, pending{"CLin\n " + histStr(h), label, true, nil,
-			map[string]interface{}{"T": T, "events": len(h), "drain": drain, "warm": warm}})
+			map[string]interface{}{"T": T, "events": len(h), "drain": drain, "warm": warm, "left_over_of_sequential_prefix": len(pre)}})
 		if len(keepTiny) < 30 && len(h) >= 5 {
 			keepTiny = append(keepTiny, h)
 		}
 	}
 	w.Notes["tiny_histories_recorded_across_a_cycle_wrap_of_the_ring"] = tinyWarm
+	w.Notes["tiny_histories_recorded_while_the_head_moves_to_the_second_ring"] = tinyCross
+	w.Notes["of_these_started_with_two_rings_linked"] = tinyCrossTwoRings
 	// corrupted copies of tiny histories: aspects_b against lin_check on histories that are (mostly) not linearizable
 	for i, h0 := range keepTiny {
 		for m := 0; m < 6; m++ {
@@ -1340,6 +1381,6 @@ func main() {
 	}
 	w.Close(o, "sequential: one case = one trace of Enqueue/Dequeue bursts on New[int64]/NewPointer/NewUint64 with results, cursor snapshots and slot probes, "+
 		"non-trivial when some Dequeue returned a value; concurrent: one case = one recorded history (P,C in 1..16, unique values, stamps from one atomic counter), "+
-		"non-trivial when >= 2 goroutines took part; tiny histories (2..4 goroutines, <= 12 calls, a third recorded across a wrap of the ring index after an unrecorded warm-up) are decided by lin_check and aspects_b; "+
+		"non-trivial when >= 2 goroutines took part; tiny histories (2..4 goroutines, <= 12 calls, a third recorded across a wrap of the ring index after an unrecorded warm-up, a third while the queue head moves from the drained first ring to the second one) are decided by lin_check and aspects_b; "+
 		"distinct = distinct case text")
 }
